@@ -14,6 +14,12 @@ for mf in sorted(glob.glob(os.path.join(HERE, "seeded", "*", "meta.json"))):
     ob = mo.group(1) if mo else first[:60]
     conf = "confirmed" if m.get("confirmed") else "UNCONFIRMED"
     how = "replayed" if (viol and "no-failing-input-found" not in viol[0] and "obligation=" not in viol[0]) else "no input"
+    if m.get("status") == "superseded":
+        rows.append(f"| {m['id']} | {', '.join(files)} | superseded by a later `fix:` commit -- no longer a defect, nothing to detect (see meta.json) |")
+        continue
+    if m.get("check_exit") == 0 and m.get("assessment"):
+        rows.append(f"| {m['id']} | {', '.join(files)} | not a violation of this property (see meta.json); its check stays green, the checks of the properties it does violate report it |")
+        continue
     rows.append(f"| {m['id']} | {', '.join(files)} | `{ob}` ({m.get('n_alarm_lines', '?')} line(s), exit {m.get('check_exit', '?')}, {how}) |")
 print("| seeded change | file(s) | first VIOLATION obligation (alarm lines, exit code, witness) |")
 print("|---|---|---|")
